@@ -144,6 +144,7 @@ func (store *Store) Write(database int, command []byte) error {
 	store.mut.Lock()
 	defer store.mut.Unlock()
 
+	verifPoint("log.write.begin")
 	// If the database parameter is different from the current database index,
 	// log the SELECT command before logging the incoming command.
 	// This allows us to switch databases appropriately when restoring the state on startup.
@@ -153,16 +154,19 @@ func (store *Store) Write(database int, command []byte) error {
 			return fmt.Errorf("log select error: %+v", err)
 		}
 		store.currentDatabase = database
+		verifPoint("log.write.after_select")
 	}
 
 	if _, err := store.rw.Write(command); err != nil {
 		return fmt.Errorf("log command error: %+v", err)
 	}
+	verifPoint("log.write.after_cmd")
 
 	if strings.EqualFold(store.strategy, "always") {
 		if err := store.Sync(); err != nil {
 			return fmt.Errorf("log file sync error: %+v", err)
 		}
+		verifPoint("log.write.after_sync")
 	}
 
 	return nil
@@ -176,6 +180,7 @@ func selectMarker(database int) []byte {
 
 func (store *Store) Sync() error {
 	if store.rw != nil {
+		verifPoint("log.sync")
 		return store.rw.Sync()
 	}
 	return nil
@@ -203,6 +208,7 @@ func (store *Store) Restore() error {
 			if err = store.rw.Truncate(offset); err != nil {
 				return fmt.Errorf("restore aof: truncate torn record: %v", err)
 			}
+			verifPointCmd("log.restore.truncated", int(offset), nil)
 			break
 		}
 		if err != nil && err != io.EOF {
@@ -241,6 +247,7 @@ func (store *Store) Restore() error {
 			continue
 		}
 
+		verifPointCmd("log.restore.cmd", database, command)
 		store.handleCommand(database, command)
 	}
 
@@ -251,9 +258,11 @@ func (store *Store) Truncate() error {
 	store.mut.Lock()
 	defer store.mut.Unlock()
 
+	verifPoint("log.trunc.begin")
 	if err := store.rw.Truncate(0); err != nil {
 		return fmt.Errorf("truncate: truncate error: %+v", err)
 	}
+	verifPoint("log.trunc.after_truncate")
 
 	// Seek to the beginning of the file after truncating.
 	if _, err := store.rw.Seek(0, 0); err != nil {
@@ -267,10 +276,12 @@ func (store *Store) Truncate() error {
 			return fmt.Errorf("truncate: log select error: %+v", err)
 		}
 	}
+	verifPoint("log.trunc.after_header")
 	// Immediately sync the file.
 	if err := store.rw.Sync(); err != nil {
 		return fmt.Errorf("truncate: sync error: %+v", err)
 	}
+	verifPoint("log.trunc.after_sync")
 
 	return nil
 }
